@@ -271,16 +271,17 @@ func runRandomized(c *vh.Ctx) {
 // ---- custom specs ----
 
 type custom struct {
-	key    string
-	desc   string
-	spec   *tls.ClientHelloSpec
-	cfg    *tls.Config
-	padto  int                                // AlwaysPadToLen argument of the spec's padding extension, if that is its functor
-	big    map[tls.TLSExtension]string        // extensions rendered compactly instead of through ExtTerm
-	tweak  func(h *tls.PubClientHelloMsg)     // header edits between ApplyPreset and BuildHandshakeState
-	wf     bool                               // generated inside the property's precondition
-	mustErr string                            // non-empty: the spec cannot be encoded (reason) - an error is required
-	oracle bool                               // apply the validity oracle to a produced hello
+	key     string
+	desc    string
+	spec    *tls.ClientHelloSpec
+	cfg     *tls.Config
+	padto   int                            // AlwaysPadToLen argument of the spec's padding extension, if that is its functor
+	big     map[tls.TLSExtension]string    // extensions rendered compactly instead of through ExtTerm
+	tweak   func(h *tls.PubClientHelloMsg) // header edits between ApplyPreset and BuildHandshakeState
+	wf      bool                           // generated inside the property's precondition
+	mustErr string                         // non-empty: the spec cannot be encoded (reason) - an error is required
+	cause   string                         // which length field the spec overflows (failure key)
+	oracle  bool                           // apply the validity oracle to a produced hello
 }
 
 func hdrTerm(h *tls.PubClientHelloMsg) string {
@@ -333,11 +334,13 @@ func runCustom(c *vh.Ctx, kind string, cu custom) {
 	if ok {
 		raw = h.Raw
 		if cu.mustErr != "" {
-			_, what := strictWalk(raw)
+			_, seen := strictWalk(raw)
+			what := cu.cause
 			if what == "" {
-				what = "accepted-unencodable"
+				what = "unencodable"
 			}
 			in.Raw = clip(raw)
+			in.Desc += " [strict walk: " + seen + "]"
 			c.Fail("malformed/"+what+"/"+cu.key, "the spec cannot be encoded ("+cu.mustErr+") but BuildHandshakeState returned nil and Hello.Raw holds "+fmt.Sprint(len(raw))+" bytes",
 				in, what, "an error")
 		} else if cu.oracle {
@@ -539,7 +542,9 @@ func wfMakers() []extMaker {
 			}
 			return e
 		}},
-		{"cookie", func(r *rand.Rand, cu *custom) tls.TLSExtension { return &tls.CookieExtension{Cookie: rb(r, sz(r, 1, 300))} }},
+		{"cookie", func(r *rand.Rand, cu *custom) tls.TLSExtension {
+			return &tls.CookieExtension{Cookie: rb(r, sz(r, 1, 300))}
+		}},
 		{"npn", func(r *rand.Rand, cu *custom) tls.TLSExtension { return &tls.NPNExtension{} }},
 		{"reneg", func(r *rand.Rand, cu *custom) tls.TLSExtension {
 			return &tls.RenegotiationInfoExtension{Renegotiation: tls.RenegotiateOnceAsClient, RenegotiatedConnection: rb(r, sz(r, 0, 255))}
@@ -673,7 +678,9 @@ func bigGeneric(cu *custom, id uint16, n int, fill byte) tls.TLSExtension {
 
 // corpus: inputs kept from the defects this check found, and the boundaries around them
 func corpus(c *vh.Ctx) []custom {
-	std := func() []uint16 { return []uint16{tls.TLS_AES_128_GCM_SHA256, tls.TLS_ECDHE_RSA_WITH_AES_128_GCM_SHA256} }
+	std := func() []uint16 {
+		return []uint16{tls.TLS_AES_128_GCM_SHA256, tls.TLS_ECDHE_RSA_WITH_AES_128_GCM_SHA256}
+	}
 	cfg := func() *tls.Config {
 		return &tls.Config{ServerName: "example.com", InsecureSkipVerify: true, OmitEmptyPsk: true, Rand: seedReader{rand.New(rand.NewSource(c.Seed))}}
 	}
@@ -688,24 +695,24 @@ func corpus(c *vh.Ctx) []custom {
 	cu := mk("ext-block-2x40000", "two GenericExtensions of 40000 bytes each: extension block 80008 bytes (DESIGN F-02b)", func(cu *custom) []tls.TLSExtension {
 		return []tls.TLSExtension{bigGeneric(cu, 0x1234, 40000, 0xaa), bigGeneric(cu, 0x1235, 40000, 0xbb)}
 	})
-	cu.wf, cu.mustErr = true, "extension block of 80008 bytes does not fit the uint16 length"
+	cu.wf, cu.mustErr, cu.cause = true, "extension block of 80008 bytes does not fit the uint16 length", "extensions-length"
 	out = append(out, cu)
 	cu = mk("ext-block-65536", "SNI-less spec whose extension block is exactly 65536 bytes", func(cu *custom) []tls.TLSExtension {
 		return []tls.TLSExtension{&tls.ExtendedMasterSecretExtension{}, bigGeneric(cu, 0x1234, 65536-4-4, 0x11)}
 	})
-	cu.wf, cu.mustErr = true, "extension block of 65536 bytes does not fit the uint16 length"
+	cu.wf, cu.mustErr, cu.cause = true, "extension block of 65536 bytes does not fit the uint16 length", "extensions-length"
 	out = append(out, cu)
 	cu = mk("ext-block-padding-65536+", "padding extension with a hand-set length pushes the block beyond 65535", func(cu *custom) []tls.TLSExtension {
 		return []tls.TLSExtension{bigGeneric(cu, 0x1234, 40000, 0x22), &tls.UtlsPaddingExtension{WillPad: true, PaddingLen: 30000}}
 	})
-	cu.wf, cu.mustErr = true, "extension block beyond 65535 bytes"
+	cu.wf, cu.mustErr, cu.cause = true, "extension block beyond 65535 bytes", "extensions-length"
 	out = append(out, cu)
 	cu = mk("single-ext-70000", "one GenericExtension of 70000 bytes (its own length field wraps too)", func(cu *custom) []tls.TLSExtension {
 		return []tls.TLSExtension{bigGeneric(cu, 0x1234, 70000, 0x33)}
 	})
-	cu.mustErr = "extension of 70004 bytes"
+	cu.mustErr, cu.cause = "extension of 70004 bytes", "extensions-length"
 	out = append(out, cu)
-	if c.Tier != "quick" {
+	{
 		cu = mk("ext-block-65535", "extension block of exactly 65535 bytes: the largest encodable", func(cu *custom) []tls.TLSExtension {
 			return []tls.TLSExtension{&tls.ExtendedMasterSecretExtension{}, bigGeneric(cu, 0x1234, 65535-4-4, 0x44)}
 		})
@@ -714,10 +721,11 @@ func corpus(c *vh.Ctx) []custom {
 	}
 	// header fields beyond their one/two-byte length prefixes
 	hdr := func(key, desc, must string, wf bool, tw func(h *tls.PubClientHelloMsg)) {
+		cause := map[string]string{"sid-256": "session-id-length", "comp-256": "compression-methods-length", "suites-32768": "cipher-suites-length", "random-31": "random-length"}[key]
 		cu := mk(key, desc, func(cu *custom) []tls.TLSExtension {
 			return []tls.TLSExtension{&tls.SNIExtension{}, &tls.SupportedVersionsExtension{Versions: []uint16{tls.VersionTLS13, tls.VersionTLS12}}}
 		})
-		cu.tweak, cu.mustErr, cu.wf, cu.oracle = tw, must, wf, wf
+		cu.tweak, cu.mustErr, cu.wf, cu.oracle, cu.cause = tw, must, wf, wf, cause
 		out = append(out, cu)
 	}
 	fillb := func(n int) []byte { return []byte(strings.Repeat("s", n)) }
@@ -745,7 +753,7 @@ func corpus(c *vh.Ctx) []custom {
 	cu = mk("two-paddings", "two padding extensions", func(cu *custom) []tls.TLSExtension {
 		return []tls.TLSExtension{&tls.UtlsPaddingExtension{GetPaddingLen: tls.BoringPaddingStyle}, &tls.SNIExtension{}, &tls.UtlsPaddingExtension{GetPaddingLen: tls.BoringPaddingStyle}}
 	})
-	cu.mustErr = "two padding extensions"
+	cu.mustErr, cu.cause = "two padding extensions", "duplicate-extension/21"
 	out = append(out, cu)
 	// no extensions at all
 	cu = mk("no-extensions", "spec without extensions: the extensions vector is absent", func(cu *custom) []tls.TLSExtension { return nil })
